@@ -15,14 +15,19 @@ RULE = ("Each case = options (proxyauth on/off, socks5_auth hook verdict, connec
         "ATYP 1/3/4/other, domain names incl. empty/255-long/non-ASCII/IP-literal look-alikes, trailing data), of which a "
         "quarter is truncated at a random point or exactly at / one byte around a message boundary; 20% the same with byte-level mutations (flip/insert/delete/duplicate); "
         "10% raw random or HTTP-looking bytes. Segmentations: whole, byte-by-byte, random cut points, with occasional empty "
-        "segments. Thorough adds, for 60 base streams, every single cut point and, for streams <= 11 bytes, every "
+        "segments. Schedules: in 55% of the random cases and in a dedicated pipelining-client class (15%: greeting, credentials, "
+        "CONNECT and 1-3 payload segments, some looking like SOCKS requests) the completions of Socks5AuthHook / OpenConnection / "
+        "NextLayerHook are delivered late, after 1, 2, 3, 4 or all further client segments were queued behind the pause (both "
+        "connection strategies, auth on/off); thorough adds every (auth, open, next_layer) delay triple for pipelined clients in each configuration. Thorough adds, for 60 base streams, every single cut point and, for streams <= 11 bytes, every "
         "composition. Every case is additionally run unsegmented so the oracle can compare outcomes. Non-trivial = at "
         "least two non-empty segments and at least one command emitted by the layer; distinct by canonical JSON.")
 TRUSTED = ["Coq 8.16.1 kernel (coqc), vm_compute for case evaluation",
            "harness/props/C21.py: layer driver (answers Socks5AuthHook, OpenConnection, NextLayerHook), generator, reference decoder, Corr/C21.v glue",
            "hand-written Gallina model Model/Socks5.v of Socks5Proxy, tied to the code only by correspondence",
            "socket.inet_ntop(AF_INET6) output is compared as the address it denotes (ipaddress.IPv6Address(host).packed), not as text"]
-ASSUMPTIONS = ["hooks are answered before the next DataReceived is delivered (no events queued while the layer is paused)",
+COQ_PRELUDE = "From MV Require Import Model.Socks5Sched.\n"
+ASSUMPTIONS = ["every blocking command is eventually completed (late completions: after 0..k further client segments, or after the last one)",
+               "pausing inside the child layer (late next_layer hook) is exercised by the oracle only; the Coq model stops at the hand-over to the child",
                "the socks5_auth hook verdict depends only on the (username, password) pair",
                "only Start and DataReceived(client) events are delivered; ConnectionClosed is not modelled",
                "context.server.transport_protocol is tcp (default)"]
@@ -139,6 +144,37 @@ def gen_cfg(rng):
     return {"pa": pa, "av": rng.chance(0.8), "eg": eg, "fl": eg and rng.chance(0.3)}
 
 
+PAYLOADS = [b"GET / HTTP/1.1\r\nHost: example.com\r\n\r\n", b"\x16\x03\x01\x00\x05hello", b"\x00", b"abc",
+            b"\x05\x01\x00\x01\x0a\x00\x00\x01\x00\x16tail", b"\x05\x01\x00", b"\x05\x02\x00\x01\x7f\x00\x00\x01\x00\x50",
+            b"\x05\x01\x00\x09zzzz", b"applicationdata"]
+
+
+def gen_late(rng):
+    """late completion of the blocking commands: number of further client segments that arrive first"""
+    if rng.chance(0.45):
+        return None
+    pick = lambda: rng.weighted([(3, 0), (3, 1), (2, 2), (1, 3), (1, 99)])
+    late = {"a": pick(), "o": pick(), "n": pick()}
+    return late if any(late.values()) else None
+
+
+def gen_pipelined(rng, cfg):
+    """a client that does not wait for replies: greeting, credentials, CONNECT and application data arrive as separate
+    segments while the auth hook / OpenConnection / next_layer hook are still pending"""
+    parts = [enc_greeting(rng, cfg["pa"], True)]
+    if cfg["pa"]:
+        parts.append(enc_auth(rng, True))
+    parts.append(enc_request(rng, rng.chance(0.9)))
+    for _ in range(rng.randint(1, 3)):
+        parts.append(rng.choice(PAYLOADS) if rng.chance(0.8) else rng.bytes(rng.randint(1, 12)))
+    if rng.chance(0.3):   # re-cut one boundary
+        i = rng.below(len(parts) - 1)
+        j = rng.below(len(parts[i + 1]) + 1)
+        parts[i], parts[i + 1] = parts[i] + parts[i + 1][:j], parts[i + 1][j:]
+    late = {"a": rng.choice([1, 2, 2, 3, 4, 99]), "o": rng.choice([0, 1, 2, 3, 99]), "n": rng.choice([0, 0, 1, 2, 99])}
+    return dict(cfg, segs=[hx(x) for x in parts], late=late)
+
+
 def gen(rng, n, tier):
     out = []
     if tier == "thorough":
@@ -159,10 +195,28 @@ def gen(rng, n, tier):
                         prev = i + 1
                 segs.append(s[prev:])
                 out.append({"pa": pa, "av": True, "eg": False, "fl": False, "segs": [hx(x) for x in segs]})
+    if tier == "thorough":   # every late-completion triple over a pipelined client, both strategies, auth on/off
+        r3 = rng.fork()
+        for pa in (False, True):
+            for eg, fl in ((False, False), (True, False), (True, True)):
+                for av in ((True, False) if pa else (True,)):
+                    cfg = {"pa": pa, "av": av, "eg": eg, "fl": fl}
+                    base = gen_pipelined(r3, cfg)["segs"]
+                    for a in ((0, 1, 2, 3, 99) if pa else (0,)):
+                        for o in ((0, 1, 2, 99) if eg else (0,)):
+                            for nl in (0, 1, 2, 99):
+                                out.append(dict(cfg, segs=base, late={"a": a, "o": o, "n": nl}))
     for _ in range(n):
         cfg = gen_cfg(rng)
+        if rng.chance(0.15):
+            out.append(gen_pipelined(rng, cfg))
+            continue
         s = gen_stream(rng, cfg["pa"])
-        out.append(dict(cfg, segs=[hx(x) for x in split(rng, s)]))
+        case = dict(cfg, segs=[hx(x) for x in split(rng, s)])
+        late = gen_late(rng)
+        if late:
+            case["late"] = late
+        out.append(case)
     return out
 
 
@@ -209,17 +263,37 @@ def _opts(pa, eg):
     return _OPTS[k]
 
 
-def _drive(case, segs):
+def _drive(case, segs, late=None):
+    """late = {"a": k, "o": k, "n": k}: the completion of a Socks5AuthHook / OpenConnection / NextLayerHook issued while
+    segment i was processed is delivered only after segment i+k has been processed (k = 0: right away, as the event
+    loop does when the task finishes before more data arrives); whatever is still pending after the last segment
+    is completed at the end, FIFO.  Returns the order of events actually delivered as sched."""
+    late = late or {}
     client = connection.Client(peername=("client", 1234), sockname=("127.0.0.1", 8080), timestamp_start=1.0,
                                state=connection.ConnectionState.OPEN)
     ctx = context.Context(client, _opts(case["pa"], case["eg"]))
     lay = modes.Socks5Proxy(ctx)
     log = []
+    sched = []
+    pending = []   # (due segment index, tag, completion event)
+    cur = [-1]
+    queued = [0]   # client segments that arrived while Socks5Proxy was paused on a blocking command
 
-    def feed(ev):
-        q = [ev]
+    def complete(tag, ev, q):
+        k = late.get(tag, 0)
+        if k == 0:
+            q.append((tag, ev))
+        else:
+            pending.append((cur[0] + k, tag, ev))
+
+    def feed(tag, ev):
+        q = [(tag, ev)]
         while q:
-            e = q.pop(0)
+            t, e = q.pop(0)
+            if t != "s":
+                sched.append([t, hx(e.data)] if t == "d" else [t])
+            if t == "d" and lay._paused is not None:
+                queued[0] += 1
             for c in lay.handle_event(e):
                 if isinstance(c, commands.SendData):
                     log.append(("send", c.connection is client, bytes(c.data)))
@@ -229,34 +303,46 @@ def _drive(case, segs):
                     pass
                 elif isinstance(c, commands.OpenConnection):
                     log.append(("open", c.connection is ctx.server, c.connection.address))
-                    q.append(events.OpenConnectionCompleted(c, "connection refused" if case["fl"] else None))
+                    complete("o", events.OpenConnectionCompleted(c, "connection refused" if case["fl"] else None), q)
                 elif isinstance(c, modes.Socks5AuthHook):
                     log.append(("auth", c.data.username, c.data.password))
                     c.data.valid = case["av"]
-                    q.append(events.HookCompleted(c, None))
+                    complete("a", events.HookCompleted(c, None), q)
                 elif isinstance(c, layer.NextLayerHook):
+                    log.append(("nlhook",))
                     if c.data.layer is None:
                         c.data.layer = Rec(c.data.context, log)
-                    q.append(events.HookCompleted(c, None))
+                    complete("n", events.HookCompleted(c, None), q)
                 else:
                     log.append(("cmd", type(c).__name__))
 
+    def flush(upto):
+        while True:
+            due = [x for x in pending if upto is None or x[0] <= upto]
+            if not due:
+                return
+            pending.remove(due[0])
+            feed(due[0][1], due[0][2])
+
     exc = None
     try:
-        feed(events.Start())
-        for s in segs:
-            feed(events.DataReceived(client, s))
+        feed("s", events.Start())
+        for i, s in enumerate(segs):
+            cur[0] = i
+            feed("d", events.DataReceived(client, s))
+            flush(i)
+        flush(None)
     except Exception as e:  # any exception escaping the layer is its own observable
         exc = type(e).__name__
-    return lay, ctx, log, exc
+    return lay, ctx, log, exc, sched, queued[0]
 
 
 def _cred(s):
     return None if "\\" in s else hx(s.encode("utf-8", "surrogatepass"))
 
 
-def _observe(case, segs):
-    lay, ctx, log, exc = _drive(case, segs)
+def _observe(case, segs, late=None):
+    lay, ctx, log, exc, sched, queued = _drive(case, segs, late)
     if exc is not None:
         state = 5
     elif lay._handle_event == lay.done:
@@ -271,7 +357,7 @@ def _observe(case, segs):
     closes = opens = 0
     creds = None
     open_addr = None
-    cstart = 0
+    cstart = nlhooks = 0
     for ent in log:
         if ent[0] in ("send", "cdata", "open", "auth") and closes:
             anomalies.append(ent[0] + "-after-close")
@@ -296,6 +382,8 @@ def _observe(case, segs):
             creds = (ent[1], ent[2])
         elif ent[0] == "cstart":
             cstart += 1
+        elif ent[0] == "nlhook":
+            nlhooks += 1
         elif ent[0] == "cdata":
             if cstart != 1:
                 anomalies.append("child-data-without-single-start")
@@ -308,6 +396,10 @@ def _observe(case, segs):
         anomalies.append("closed-twice")
     if opens > 1:
         anomalies.append("opened-twice")
+    if nlhooks > 1:
+        anomalies.append("next-layer-hook-twice")   # the harness installs the child at the first hook
+    if (nlhooks > 0) != (cstart > 0) and exc is None:
+        anomalies.append("next-layer-hook-without-child-start")
     addr = ctx.server.address
     if opens and open_addr != addr:
         anomalies.append("open-address-differs")
@@ -325,12 +417,13 @@ def _observe(case, segs):
             "opened": opens > 0, "closed": closes > 0,
             "creds": None if creds is None else [_cred(creds[0]), _cred(creds[1])],
             "creds_str": None if creds is None else [hx(x.encode("utf-8", "surrogatepass")) for x in creds],
-            "child": hx(child), "anomalies": sorted(set(anomalies)), "exc": exc}
+            "child": hx(child), "anomalies": sorted(set(anomalies)), "exc": exc, "sched": sched, "queued": queued,
+            "paused": lay._paused is not None}
 
 
 def run_impl(case):
     segs = [unhx(x) for x in case["segs"]]
-    o = _observe(case, segs)
+    o = _observe(case, segs, case.get("late"))
     w = _observe(case, [b"".join(segs)])
     o["whole"] = w
     return o
@@ -342,7 +435,8 @@ def coq_case(case, obs):
     dest = "(@None idest)" if d is None else f"(Some ({cbytes(unhx(d[0]))}, {ob(d[1])}, {cN(d[2])}))"
     cr = obs["creds"]
     creds = "(@None (option bytes * option bytes))" if cr is None else f"(Some ({ob(cr[0])}, {ob(cr[1])}))"
-    segs = clist((cbytes(unhx(x)) for x in case["segs"]), "bytes")
+    evn = {"a": "EAuthDone", "o": "EOpenDone"}   # next_layer completions (n) belong to the child layer, not to this model
+    segs = clist((f"EData {cbytes(unhx(e[1]))}" if e[0] == "d" else evn[e[0]] for e in obs["sched"] if e[0] != "n"), "ev")
     return (f"Case {cbool(case['pa'])} {cbool(case['av'])} {cbool(case['eg'])} {cbool(case['fl'])} {segs} "
             f"{cN(obs['state'])} {cbytes(unhx(obs['buf']))} {cbytes(unhx(obs['sent']))} {dest} "
             f"{cbool(obs['opened'])} {cbool(obs['closed'])} {creds} {cbytes(unhx(obs['child']))}")
@@ -465,9 +559,11 @@ def oracle(case, obs):
         v.append({"key": "exception", "what": f"layer raised {obs['exc'] or obs['whole']['exc']} on {case['segs']}"})
     # 1. segmentation independence
     a, b = _outcome(obs), _outcome(obs["whole"])
+    if obs["paused"]:
+        v.append({"key": "schedule-still-paused", "what": f"layer still paused after every completion was delivered, segs {case['segs']} late {case.get('late')}"})
     if a != b:
         diff = [k for k in a if a[k] != b[k]]
-        v.append({"key": "segmentation-" + "-".join(diff), "what": f"outcome fields {diff} differ between segs {case['segs']} and the unsegmented stream"})
+        v.append({"key": ("schedule-" if case.get("late") else "segmentation-") + "-".join(diff), "what": f"outcome fields {diff} differ between segs {case['segs']} (late completions {case.get('late')}) and the unsegmented, promptly answered stream"})
     # 2. exact decoding, replies, relay
     ref = reference(stream, case)
     exp_state = {"waiting": None, "rejected": 4, "accepted": 3}[ref["verdict"]]
@@ -514,6 +610,9 @@ def nontrivial(case, obs):
 def classify(case, obs):
     st = ["greet-wait", "auth-wait", "connect-wait", "relay", "done", "exception"][obs["state"]]
     tags = [st, f"auth={int(case['pa'])}", f"segs={min(len(case['segs']), 8)}" + ("+" if len(case["segs"]) >= 8 else "")]
+    tags.append("late" if case.get("late") else "prompt")
+    if case.get("late"):
+        tags.append(f"queued-behind-pause={min(obs['queued'], 3)}")
     s = unhx(obs["sent"])
     if obs["state"] == 4:
         tags.append("reject:" + (s[-10:-8].hex() if len(s) >= 10 and s[-8:] == b"\x00\x01\x00\x00\x00\x00\x00\x00" else (s[-2:].hex() if s[-2:] == b"\x01\x01" else "noreply")))
